@@ -115,6 +115,24 @@ class Runner:
 _runner = {}
 
 
+def _reworker(job):
+    """second opinion on a time-out: the same operands again under a generous CPU bound. An input whose evaluation ends (with
+    whatever outcome) is judged by that outcome; only one that is still running after 30 s of CPU time is reported as not returning"""
+    legacy, src, binds = job
+    core.use_repo()
+    if "dir" not in _runner:
+        _runner["dir"] = setup_scratch()
+    key = ("r", legacy)
+    if key not in _runner:
+        _runner[key] = Runner(legacy)
+    out = _runner[key].run(src, binds, limit=30)
+    if out[0] == 'rt':
+        out2 = _runner[key].run("do " + src + " catch all '__caught__' end", binds, limit=30)
+        if out2[0] != 'val':
+            out = ('host', 'runtime error not intercepted by catch all: ' + str(out2))
+    return legacy, src, binds, out
+
+
 def _worker(job):
     legacy, items = job
     core.use_repo()
@@ -132,8 +150,8 @@ def _worker(job):
             out2 = r.run("do " + src + " catch all '__caught__' end", binds)
             if out2[0] != 'val':
                 out = ('host', 'runtime error not intercepted by catch all: ' + str(out2))
-        if out[0] in ('host', 'timeout'):
-            res.append((src, binds, out))
+        if out[0] in ('host', 'timeout') or (out[0] == 'host' and 'timeout' in out[1]):
+            res.append((src, binds, out, legacy))
     return len(items), res
 
 
@@ -265,6 +283,19 @@ def run(ctx):
             for cnt, res in pool.imap_unordered(_worker, jobs):
                 ctx.evaluations += cnt
                 bad += res
+        # time-outs get a second, generous run (at most 48 of them; a tree on which evaluation really hangs times out again)
+        slow = [b for b in bad if b[2][0] == 'timeout' or 'timeout' in str(b[2][1:])]
+        bad = [b[:3] for b in bad if b not in slow]
+        ctx.count("timeouts_first_pass", len(slow))
+        redo, rest = slow[:48], slow[48:]
+        if redo:
+            with mp.Pool(16) as pool:
+                for legacy, src, binds, out in pool.imap_unordered(_reworker, [(b[3], b[0], b[1]) for b in redo]):
+                    if out[0] in ('host', 'timeout'):
+                        bad.append((src, binds, out))
+                    else:
+                        ctx.count("timeouts_cleared_by_second_run")
+        bad += [b[:3] for b in rest]
         ctx.nontrivial = set(range(total))      # every tuple is a distinct case by construction
         seen_sites = set()
         cyclic = {i for i, p_ in enumerate(POOL_SRC) if "_proto_ = " in p_ and "(fn()" in p_}
@@ -280,7 +311,7 @@ def run(ctx):
                 continue
             seen_sites.add(site)
             args = {k: POOL_SRC[i] for k, i in binds.items()}
-            what = "does not return within 2 s" if out[0] == 'timeout' else f"escapes with {out[1]}"
+            what = "does not return (2 s of CPU time, then 30 s on a second run)" if out[0] == 'timeout' else f"escapes with {out[1]}"
             ctx.violation("oracle", f"`{src}` with {args} {what}", {"op": "call", "src": src, "args": args, "outcome": list(out)})
     finally:
         os.chdir(d0)
